@@ -70,6 +70,9 @@ def cells(tier):
         out.append({'kind': 'loadflush', 'backend': 'disk', 'K': 24})
         for b in ('shelf', 'disk', 'redis'):
             out.append({'kind': 'restart', 'backend': b})
+        out.append({'kind': 'policyfail', 'backend': 'dict'})
+        out.append({'kind': 'retry', 'backend': 'dict', 'msgs': 1, 'fails': 2,
+                    'op_time': 1})
         # bounded store pools
         out.append({'kind': 'retry', 'backend': 'dict', 'msgs': 2, 'fails': 1,
                     'store_pool': 1})
@@ -174,11 +177,27 @@ class World(object):
             return qc.Outcome.OK, None
         self.relay = qc.ScriptRelay(decide, duration=relay_dur)
 
+        self.chosen = {}        # (tag, attempts) -> instant the policy chose
+
         def backoff(envelope, attempts):
             if cell.get('give_up') and attempts >= cell['give_up']:
                 return None         # retries exhausted
-            return api.real('delay_%s_%d' % (envelope.client.get('tag'),
-                                             attempts), 0)
+            d = api.real('delay_%s_%d' % (envelope.client.get('tag'),
+                                          attempts), 0)
+            self.chosen[(envelope.client.get('tag'), attempts)] = \
+                qc.now() + d
+            return d
+        if cell.get('op_time'):
+            # the storage update before the backoff call takes time
+            import gevent
+            orig_inc = self.store.increment_attempts
+            lat = api.real('store_latency', 0, 2)
+            api.assume(lat > 0)
+
+            def increment_attempts(id):
+                gevent.sleep(lat)
+                return orig_inc(id)
+            self.store.increment_attempts = increment_attempts
         kw = {}
         if cell.get('relay_pool'):
             kw['relay_pool'] = cell['relay_pool']
@@ -218,6 +237,13 @@ class World(object):
                     else False
                 api.prove(Or(c['start'] >= due, flushed), 'attempted-early',
                           tag=tag, attempt=c['attempts'], **info)
+                want = self.chosen.get((tag, c['attempts']))
+                if want is not None:
+                    # ... "the time the backoff policy chose": the instant
+                    # of the backoff call plus the delay it returned
+                    api.prove(Or(c['start'] >= want, flushed),
+                              'attempted-before-the-time-the-policy-chose',
+                              tag=tag, attempt=c['attempts'], **info)
                 if not self.flushes:
                     # ... and not late: the loop reacts at the due instant
                     # (relay pool permitting)
@@ -309,6 +335,57 @@ def run_restart(cell):
     left = w.stored_ids()
     api.prove(len(calls) == 2 and ids['m0'] not in left, 'message-forgotten',
               attempts=len(calls), **info)
+
+
+def run_policyfail(cell):
+    """an enqueue() in which a queue policy raises, then a message stored
+    by another process is announced: it must still be scheduled"""
+    import gevent
+    from slimta.policy import QueuePolicy
+    w = World(cell, lambda tag: 0)
+    store = w.store
+    announce = []
+    from gevent.event import Event
+    gate = Event()
+
+    def wait():
+        gate.wait()
+        gate.clear()
+        out, announce[:] = list(announce), []
+        return out
+    store.wait = wait
+
+    class Picky(QueuePolicy):
+        def apply(self, envelope):
+            if envelope.client.get('tag') == 'bad':
+                raise ValueError('policy cannot handle this message')
+    w.queue.add_policy(Picky())
+    w.queue.start()
+    qc.run_until_quiescent()
+    raised = []
+    try:
+        w.queue.enqueue(qc.make_envelope('bad', 's@z', ['a@x']))
+    except ValueError:
+        raised.append(1)
+    ids = {}
+    t_a = api.real('t_announce', 0)
+
+    def other_process():
+        gevent.sleep(t_a)
+        ids['m0'] = store.write(qc.make_envelope('m0', 's@z', ['a@x']), t_a)
+        announce.append((t_a, ids['m0']))
+        gate.set()
+    gevent.spawn(other_process)
+    qc.run_until_quiescent()
+    w.queue.kill()
+    info = dict(backend=cell['backend'], kind='policyfail')
+    api.prove(bool(raised), 'policy-exception-swallowed', **info)
+    calls = [c for c in w.relay.calls if c['tag'] == 'm0']
+    api.observe('calls', len(calls))
+    api.prove(len(calls) == 1, 'message-forgotten', attempts=len(calls),
+              **info)
+    if calls:
+        api.prove(calls[0]['start'] == t_a, 'attempted-late', **info)
 
 
 def run_load(cell):
